@@ -20,6 +20,18 @@ if w.get("op") == "two-drivers":
 
         vtask = Job.vectorize(task)
 
+    class DC(D):
+        envars = {"CLSVAR": "default"}          # class-level defaults shared by all instances
+    c1 = DC("sh", nprocs=1, memory=1, envars={"A": "1"}, check_exe=True)
+    c2 = DC("sh", nprocs=1, memory=1, envars={"B": "2"}, check_exe=True)
+    # (DriverBase.__init__ stores envars on the instance; the class attribute must survive untouched)
+    for rnd in range(2):
+        for d, own in ((c1, "A"), (c2, "B")):
+            got = set((d.task.prepare(object()).envars or {}).keys())
+            if not ({own} <= got <= {own, "CLSVAR"}):
+                bad.append(f"driver with own variable {own} (class default CLSVAR) prepared environment {sorted(got)}")
+    if DC.envars != {"CLSVAR": "default"}:
+        bad.append(f"class-level envars were modified by binding jobs: {DC.envars}")
     d1 = D("sh", nprocs=2, memory=111, envars={"VAR": "one"}, check_exe=True)
     d2 = D("ls", nprocs=8, memory=222, envars={"VAR": "two"}, check_exe=True)
     # a driver that defines a variable the next one does not define, and one without any environment
@@ -41,6 +53,22 @@ if w.get("op") == "two-drivers":
             vin = list(d.vtask.prepare([object()]))
             if not vin[0].commands[0][0].endswith(f"-P {n}"):
                 bad.append(f"vectorized job of driver nprocs={n} prepared {vin[0].commands[0][0]!r}")
+elif w.get("op") == "jobinput":
+    d = tempfile.mkdtemp()
+    for files in ({"in.txt": "hello text", "in.bin": b"\x00\x01"}, {"in.bin": b"\x02"}, None):
+        a = JobInput("jid", commands=[("echo 1", "c0"), ("echo 2", None)], files=files, return_files=("r1", "r2"), envars={"OMP_NUM_THREADS": "4"}, timeout=10.0)
+        fn = os.path.join(d, "j.inp")
+        a.dump(fn)
+        b = JobInput.load(fn)
+        if b.hash != a.hash:
+            bad.append(f"JobInput.load(dump(x)).hash differs from x.hash (files={None if files is None else {k: type(v).__name__ for k, v in files.items()}})")
+        if (b.files or {}).get("in.txt", None) != (files or {}).get("in.txt", None):
+            bad.append("a text input file does not survive dump/load")
+        for fld, other in (("envars", {"OMP_NUM_THREADS": "8"}), ("timeout", 99.0), ("return_files", ("r1",)), ("jid", "other")):
+            kw = dict(jid="jid", commands=[("echo 1", "c0"), ("echo 2", None)], files=files, return_files=("r1", "r2"), envars={"OMP_NUM_THREADS": "4"}, timeout=10.0)
+            kw[fld] = other
+            if JobInput(**kw).hash == a.hash:
+                bad.append(f"two job inputs that differ in {fld} have the same hash")
 elif w.get("op") == "driver-init":
     try:
         d = DriverBase("sh" if w.get("found") else "no-such-exe-xyz", nprocs=3, memory=5, check_exe=w.get("check_exe"), find=w.get("find"))
